@@ -30,6 +30,7 @@ THEOREMS = [
     "O2P.Jq.source_append",
     "O2P.Jq.skip_independent",
     "O2P.Jq.source_invalid_doc",
+    "O2P.Jq.compile_correct",
 ]
 
 RS, SS, SP = "resource_spans", "scope_spans", "spans"
@@ -365,6 +366,14 @@ class Impl:
                 out.append(f"{type(ex).__name__}: {str(ex)[:120]}")
         return out
 
+    def query(self, mapping: list[dict[str, Any]]) -> str:
+        """the text of the jq query the real compiler emits for the mapping"""
+        fm = {f["name"]: to_field_spec(f) for f in mapping}
+        try:
+            return str(self.conv.field_mapping_to_jq_query(fm))
+        except Exception as ex:  # noqa: BLE001
+            return f"compile: {type(ex).__name__}: {str(ex)[:120]}"
+
     def events(self, mapping: list[dict[str, Any]], docs: list[Any], per_line: bool, k: int) -> Any:
         fm = {f["name"]: to_field_spec(f) for f in mapping}
         d = os.path.join(self.tmp, f"c{k}")
@@ -497,7 +506,22 @@ def run(ctx: Ctx) -> None:
                                   concrete=False)
                     continue
                 mrecs = untag_model(rep["records"])
-                if mrecs != recs:
+                qtext = impl.query(case["mapping"])
+                ctx.tick("query_texts_compared")
+                if qtext != rep["query"]:
+                    ctx.violation("correspondence: the jq query the compiler emits is not the text of the Lean emitter "
+                                  "(compile_correct is about another query)",
+                                  {"input": inp, "model": rep["query"], "impl": qtext}, key=("corrq", inp), concrete=False)
+                elif not rep["wf"]:
+                    ctx.violation("correspondence: the compiled program is not well-formed (wfProgram): compile_correct "
+                                  "does not apply to it", {"input": inp}, key=("corrwf", inp), concrete=False)
+                elif any(e["err"] for e in rep["evaluated"]) or \
+                        [untag_model(e["outs"]) for e in rep["evaluated"]] != recs:
+                    ctx.violation("correspondence: the Lean jq semantics evaluates the emitted query to other records "
+                                  "than the real jq engine",
+                                  {"input": inp, "model": rep["evaluated"], "impl": recs}, key=("correval", inp),
+                                  concrete=False)
+                elif mrecs != recs:
                     ctx.violation("correspondence: Lean extraction model and the compiled jq program differ",
                                   {"input": inp, "model": mrecs, "impl": recs}, key=("corr", inp), concrete=False)
                 elif rep["events"] != evs:
@@ -506,9 +530,11 @@ def run(ctx: Ctx) -> None:
     finally:
         impl.close()
     ctx.assumptions += [
-        "the jq engine is not modelled: the Lean model states the behaviour of the emitted program directly and is "
-        "compared with the real compiled program on every generated document; floats and composite values under "
-        "tostring are outside the generated domain",
+        "the jq engine (C library) is modelled by O2P.Jq.eval for the emitted fragment and compared with the real engine "
+        "on every generated (query, document) pair; the emitted query text is compared character by character with "
+        "the Lean emitter's; the link between the emitter's text and its expression tree is by construction (no jq "
+        "parser in Lean) and validated by that differential run; floats and composite values under tostring are "
+        "outside the generated domain",
         "pydantic coercion of OTelEvent is modelled for the generated value kinds (digit strings and ints for "
         "timestamps, strings, null, lists of strings)",
         "where the documentation is silent (empty inner array vs missing key, false under //, iteration over an object) "
